@@ -1,9 +1,10 @@
 use crate::engine::Property;
 
+pub mod c01;
 pub mod c04;
 
 pub fn all() -> Vec<&'static dyn Property> {
-    vec![&c04::C04]
+    vec![&c01::C01, &c04::C04]
 }
 
 pub fn find(id: &str) -> Option<&'static dyn Property> {
